@@ -1,0 +1,9 @@
+//go:build verif
+
+package ch
+
+import "github.com/ClickHouse/ch-go/internal/vhook"
+
+// SetVerifHook installs the callback invoked at the named verification points
+// (see internal/vhook). Available only with the "verif" build tag.
+func SetVerifHook(f func(name string)) { vhook.Set(f) }
